@@ -258,10 +258,112 @@ def add_driver_traces(ctx, res, rng, dims, prop, frozen_bias=False):
     for P in dims:
         for r in range(n_per if P <= 3 else max(2, n_per // 3)):
             cases.append(gen_case(rng, P, frozen_bias=frozen_bias))
-    if prop == 'C04' and not ctx.quick:
-        # every choice of frozen flags (2-4 populations; 5: every single and every complementary choice) and of nomut flags
+    if prop == 'C04':
+        # every choice of frozen flags (quick: 2 and 3 populations; thorough also 4, and 5 with every single and every
+        # complementary choice) and of nomut flags, on the constant and the time-function path
         import itertools as _it
-        for P in (2, 3, 4, 5):
+        for P in ((2, 3) if ctx.quick else (2, 3, 4, 5)):
+            pats = list(_it.product([False, True], repeat=P))
+            if P == 5:
+                pats = [pt for pt in pats if sum(pt) in (0, 1, 4, 5)]
+            for pt in pats:
+                for mode in ('const', 'linear'):
+                    c = gen_case(rng, P, mode=mode, kind='normal')
+                    c['frozen'] = list(pt)
+                    for k_, p_ in enumerate(c['par']):
+                        p_['mig'] = [({'c0': 0.0, 'c1': 0.0, 'const': True} if (pt[k_] or pt[j_] or j_ == k_) else m_) for j_, m_ in enumerate(p_['mig'])]
+                    if P == 2:
+                        c['nomut'] = [rng.random() < 0.5, rng.random() < 0.5]
+                    cases.append(c)
+    if prop == 'C02':
+        # Chang-Cooper weights far out on both sides (|2 M dx / V| > 500: strongly negative and strongly positive advection against weak
+        # drift), on the constant-parameter path (Python coefficients) and the time-function path (compiled kernels); own RNG
+        rx = random.Random(ctx.seed + 902)
+        for P in (1, 2, 3):
+            for mode in ('const', 'linear'):
+                for flavour in (('sel-', 'sel+', 'mig') if P >= 2 else ('sel-', 'sel+')):
+                    if ctx.quick and flavour == 'sel+' and mode == 'linear':
+                        continue
+                    c = gen_case(rx, P, mode=mode, n=8, kind='normal')
+                    c['grid_kind'] = 'uniform'
+                    c['delj'] = True
+                    c['frozen'] = [False] * P
+                    c['nomut'] = [False] * P
+                    c['layout'] = 'C'
+                    c['steps'] = 2.3
+                    for k_, p_ in enumerate(c['par']):
+                        p_['nu'] = {'c0': 100.0 if flavour != 'mig' else 60.0, 'c1': 0.0}
+                        p_['gamma'] = {'c0': {'sel-': -40.0, 'sel+': 38.0, 'mig': 0.0}[flavour], 'c1': 0.0}
+                        p_['h'] = {'c0': 0.5, 'c1': 0.0}
+                        p_['beta'] = {'c0': 1.0, 'c1': 0.0}
+                        p_['mig'] = [({'c0': 0.0, 'c1': 0.0, 'const': True} if j_ == k_ else
+                                      {'c0': (18.0 + 0.25 * (k_ * 3 + j_)) if flavour == 'mig' else 0.0, 'c1': 0.0, 'const': flavour != 'mig'})
+                                     for j_ in range(P)]
+                    cases.append(c)
+    if prop == 'C02':
+        # non-generic points: populations tied in all parameters but one (a coefficient matrix shared between populations
+        # would be wrong), constant and time-function path
+        rt = random.Random(ctx.seed + 903)
+        for P in (2, 3):
+            for mode in ('const', 'linear'):
+                for differ in ('mig', 'h', 'gamma', 'nu'):
+                    if ctx.quick and P == 3 and differ in ('gamma', 'nu') and mode == 'linear':
+                        continue
+                    c = gen_case(rt, P, mode=mode, kind='normal')
+                    c['frozen'] = [False] * P
+                    c['nomut'] = [False] * P
+                    nu0, g0, h0, m0 = rt.choice([1.0, 2.0, 0.5]), rt.choice([-1.5, 2.0, 3.5]), rt.choice([0.5, 0.2]), rt.choice([0.0, 0.8, 2.5])
+                    for k_, p_ in enumerate(c['par']):
+                        p_['nu'] = {'c0': nu0 * ((1 + 0.37 * k_) if differ == 'nu' else 1.0), 'c1': 0.0}
+                        p_['gamma'] = {'c0': g0 * ((1 - 0.6 * k_) if differ == 'gamma' else 1.0), 'c1': 0.0}
+                        p_['h'] = {'c0': (h0 + 0.23 * k_) if differ == 'h' else h0, 'c1': 0.0}
+                        p_['mig'] = [({'c0': 0.0, 'c1': 0.0, 'const': True} if j_ == k_ else
+                                      {'c0': (0.3 + 1.1 * k_ + 0.45 * j_) if differ == 'mig' else m0, 'c1': 0.0, 'const': differ != 'mig' and m0 == 0.0})
+                                     for j_ in range(P)]
+                    cases.append(c)
+    if prop in ('C02', 'C04'):
+        # call sequences in one process: the same parameters on a different grid with the same number of points, and the
+        # Chang-Cooper switch flipped between two otherwise identical calls (a coefficient table remembered from an earlier
+        # call would be wrong); grids whose first / last interior point lies within 1e-8 of the boundary (only the exact
+        # corner lines may absorb)
+        rh = random.Random(ctx.seed + 904)
+        for P in (1, 2, 3):
+            if prop == 'C04' and P == 1:
+                continue
+            base = gen_case(rh, P, mode='const', kind='normal')
+            base['frozen'] = [False] * P if prop == 'C02' else [q == P - 1 for q in range(P)]
+            base['nomut'] = [False] * P
+            for k_, p_ in enumerate(base['par']):
+                if base['frozen'][k_] or any(base['frozen']):
+                    p_['mig'] = [{'c0': 0.0, 'c1': 0.0, 'const': True} for _ in range(P)]
+            base['layout'] = 'C'
+            base['delj'] = False
+            base['grid_kind'] = 'exponential'
+            seq = [base]
+            c2 = copy.deepcopy(base); c2['grid_kind'] = 'uniform'; seq.append(c2)                 # same parameters, other grid, same n
+            c3 = copy.deepcopy(base); c3['grid_kind'] = 'random'; c3['grid_seed'] += 1; seq.append(c3)
+            if prop == 'C02':
+                c4 = copy.deepcopy(base); c4['delj'] = True; seq.append(c4)                        # switch on ...
+                c5 = copy.deepcopy(base); seq.append(c5)                                           # ... and off again
+            if P >= 2:
+                c6 = copy.deepcopy(base); c6['mode'] = 'linear'; c6['grid_kind'] = 'uniform'; seq.append(c6)   # time-function path after the constant one
+            cases.extend(seq)
+        for P, mode in ((2, 'linear'), (3, 'linear'), (2, 'const'), (4, 'const')) if ctx.quick else ((2, 'linear'), (3, 'linear'), (2, 'const'), (3, 'const'), (4, 'const'), (4, 'linear'), (5, 'const')):
+            c = gen_case(rh, P, mode=mode, kind='normal')
+            c['grid_kind'] = 'crowded'
+            c['delj'] = False
+            c['layout'] = 'C'
+            if prop == 'C04':
+                c['frozen'] = [q == 0 for q in range(P)]
+                c['nomut'] = [False] * P
+                for k_, p_ in enumerate(c['par']):
+                    p_['mig'] = [({'c0': 0.0, 'c1': 0.0, 'const': True} if (0 in (k_, j_) or j_ == k_) else m_) for j_, m_ in enumerate(p_['mig'])]
+            cases.append(c)
+    if prop == 'C04':
+        # every choice of frozen flags (quick: 2 and 3 populations; thorough also 4, and 5 with every single and every
+        # complementary choice) and of nomut flags, on the constant and the time-function path
+        import itertools as _it
+        for P in ((2, 3) if ctx.quick else (2, 3, 4, 5)):
             pats = list(_it.product([False, True], repeat=P))
             if P == 5:
                 pats = [pt for pt in pats if sum(pt) in (0, 1, 4, 5)]
